@@ -243,6 +243,18 @@ func (i *interpreter) boxUnmarshal(kind string, bz value, ptr value) string {
 		// marshalled T, decoding into *T variable (pointer to pointer)
 		cell := src
 		*dst = &cell
+	case box.kind == "json" && jsonIntClass(box.t) != 0 && jsonIntClass(box.t) == jsonIntClass(elem):
+		// amino-JSON writes int64/uint64/int/uint as decimal strings and the smaller integers as numbers: an integer of one
+		// kind decodes into another kind of the same class whenever its value is in range
+		c := concreteBig(src)
+		if c == nil {
+			unsup("amino-JSON: symbolic integer decoded into another integer kind")
+		}
+		v, ok := intOfKind(elem.Underlying().(*types.Basic).Kind(), c)
+		if !ok {
+			return fmt.Sprintf("amino: value %s out of range for %s", c, elem)
+		}
+		store(elem, dst, v)
 	default:
 		// decoding into a different type: treated as a decode error (amino would fail or, for some
 		// representation-compatible types, succeed: that case is outside the model and listed as an assumption)
@@ -250,6 +262,47 @@ func (i *interpreter) boxUnmarshal(kind string, bz value, ptr value) string {
 		return fmt.Sprintf("amino: cannot decode a %s into %s", box.t, elem)
 	}
 	return ""
+}
+
+// jsonIntClass: 2 for the integer kinds amino-JSON writes as strings (64 bit), 1 for those it writes as numbers, 0 otherwise.
+func jsonIntClass(t types.Type) int {
+	b, ok := t.Underlying().(*types.Basic)
+	if !ok {
+		return 0
+	}
+	switch b.Kind() {
+	case types.Int64, types.Uint64, types.Int, types.Uint:
+		return 2
+	case types.Int8, types.Int16, types.Int32, types.Uint8, types.Uint16, types.Uint32:
+		return 1
+	}
+	return 0
+}
+
+func intOfKind(k types.BasicKind, c *big.Int) (value, bool) {
+	switch k {
+	case types.Int64:
+		return c.Int64(), c.IsInt64()
+	case types.Int:
+		return int(c.Int64()), c.IsInt64()
+	case types.Uint64:
+		return c.Uint64(), c.IsUint64()
+	case types.Uint:
+		return uint(c.Uint64()), c.IsUint64()
+	case types.Int32:
+		return int32(c.Int64()), c.IsInt64() && c.Int64() >= -1<<31 && c.Int64() < 1<<31
+	case types.Int16:
+		return int16(c.Int64()), c.IsInt64() && c.Int64() >= -1<<15 && c.Int64() < 1<<15
+	case types.Int8:
+		return int8(c.Int64()), c.IsInt64() && c.Int64() >= -1<<7 && c.Int64() < 1<<7
+	case types.Uint32:
+		return uint32(c.Uint64()), c.IsUint64() && c.Uint64() < 1<<32
+	case types.Uint16:
+		return uint16(c.Uint64()), c.IsUint64() && c.Uint64() < 1<<16
+	case types.Uint8:
+		return uint8(c.Uint64()), c.IsUint64() && c.Uint64() < 1<<8
+	}
+	return nil, false
 }
 
 func isPtrTo(p, t types.Type) bool {
